@@ -41,7 +41,7 @@ class SyncResult:
 
 
 def run_case(prog, inputs, mode='plain', with_refs=True, fn_wrap=None, per_emit=None,
-             emit_timeout=20.0):
+             emit_timeout=20.0, caller_loop=False):
     """mode: 'plain' (Stream()), 'async' (Stream(asynchronous=True) on a VLoop).
 
     Returns SyncResult with: log, calls (real global sink call order),
@@ -51,6 +51,7 @@ def run_case(prog, inputs, mode='plain', with_refs=True, fn_wrap=None, per_emit=
     res.emit_errors = []
     res.quiescent = []
     res.hung = False
+    res.caller_loop = caller_loop       # plain mode, pipeline on the background loop: the caller's thread runs a loop of its own
     calls = []
     mdl = M.Model(prog)
     res.model = mdl
@@ -135,7 +136,16 @@ def _emit_with_watchdog(node, x, md, timeout, res):
 
     def run():
         try:
-            node.emit(x, metadata=md if md else None)
+            if getattr(res, 'caller_loop', False):
+                import asyncio
+
+                async def in_a_coroutine():
+                    return node.emit(x, metadata=md if md else None)       # a blocking emit made from inside another loop
+                r = asyncio.run(in_a_coroutine())
+                if r is not None and hasattr(r, 'done'):
+                    box['exc'] = AssertionError('blocking emit returned a pending awaitable %r instead of blocking' % (r,))
+            else:
+                node.emit(x, metadata=md if md else None)
         except Exception as ex:
             box['exc'] = ex
         box['done'] = True
